@@ -529,6 +529,23 @@ class QGen:
 
     def evt_bool(self, evar, depth):
         r = self.r
+        if r.random() < 0.15:
+            # an operand that loops over a sequence FIRST, then one that needs a collection without looping over it (a
+            # singleton's value, the first element by index): which collection is asked for in which event follows the
+            # order in which the query names them
+            s_, et = self.seq_of_obj(evar, 0, allow_where=r.random() < 0.3)
+            lhs = f"{s_}.Count() {r.choice(['>= 2', '> 0', '>= 1', '== 0'])}"
+            was = self.uncond
+            self.uncond = False
+            if self.b == "atlas" and r.random() < 0.6:
+                self.occ.append({"coll": "EventInfo", "bank": "EventInfo", "type": "xAOD::EventInfo", "uncond": False})
+                rhs = f'{evar}.EventInfo("EventInfo").runNumber() {r.choice([">", "<", "!="])} {r.choice(["300001", "300002", "300003"])}'
+            else:
+                s2, et2 = self.coll(evar)
+                rhs = f"{s2}[0].{r.choice(DOUBLE_METHODS)}() > {r.choice(FLOATS)}"
+            self.uncond = was
+            self.shape.append("ebool_loop_then_plain")
+            return f"(({lhs}) {r.choice(['and', 'or'])} ({rhs}))"
         if depth > 0 and r.random() < 0.2:
             # guard pattern: the right operand is only evaluated when the left one allows it
             s_, et = self.seq_of_obj(evar, 0, allow_where=False)
